@@ -154,6 +154,9 @@ class SLRef:
         self.sid = sid
 
 
+STR_LIST = "<str>"        # class marker of a symbolic-length list of opaque strings (only the number of entries is tracked)
+
+
 class SymListData:
     def __init__(self, length, arr, cls, owner="fresh"):
         self.length, self.arr, self.cls, self.owner = length, arr, cls, owner     # cls None => list of reals / ints (arr sort decides)
@@ -179,6 +182,9 @@ def symlist_get(ex, st, ref, i, node=None):
     if node is not None:
         ex.safe(st, "list-index", z3.And(i >= 0, i < d.length), node)
     v = z3.Select(d.arr, i)
+    if d.cls == STR_LIST:
+        from .core import StrV
+        return StrV("<entry of a list of strings>")
     if d.cls is not None:
         return SObj(d.cls, v, owner=d.owner)
     return v
@@ -195,8 +201,10 @@ def symlist_append(ex, st, ref, x, node=None):
     if d.owner != "fresh":
         st.writes.append((d.owner, "list.append", getattr(node, "lineno", 0)))
     from .core import StrV
-    if d.cls is None and isinstance(x, StrV):
-        st.heap[ref.sid] = SymListData(d.length + 1, z3.Store(d.arr, d.length, z3.IntVal(0)), d.cls, d.owner)
+    if d.cls == STR_LIST:
+        if not isinstance(x, StrV):
+            raise Undecided("append of a non-string to a list of strings")
+        st.heap[ref.sid] = SymListData(d.length + 1, d.arr, d.cls, d.owner)
         return
     if d.cls is None and isinstance(x, ARef):
         # a list of arrays: the entry is the array's content (its length is not kept)
@@ -219,13 +227,21 @@ def symlist_extend(ex, st, ref, other, node=None):
     if d.owner != "fresh":
         st.writes.append((d.owner, "list.extend", getattr(node, "lineno", 0)))
     from .core import SeqV, LRef, StrV
+    if d.cls == STR_LIST:
+        if isinstance(other, SeqV):
+            n = other.length
+        elif isinstance(other, LRef) and all(isinstance(x, StrV) for x in st.heap[other.sid].items):
+            n = len(st.heap[other.sid].items)
+        elif isinstance(other, SLRef) and st.heap[other.sid].cls == STR_LIST:
+            n = st.heap[other.sid].length
+        else:
+            raise Undecided("extend of a list of strings with this value")
+        st.heap[ref.sid] = SymListData(d.length + n, d.arr, d.cls, d.owner)
+        return
     if isinstance(other, SeqV) and d.cls is None:
         j = z3.Int("j!ext")
         arr = z3.Lambda([j], z3.If(j < d.length, z3.Select(d.arr, j), _opaque_elem(other.getter(ex, st, j - d.length))))
         st.heap[ref.sid] = SymListData(d.length + other.length, arr, d.cls, d.owner)
-        return
-    if isinstance(other, LRef) and d.cls is None and all(isinstance(x, StrV) for x in st.heap[other.sid].items):
-        st.heap[ref.sid] = SymListData(d.length + len(st.heap[other.sid].items), d.arr, d.cls, d.owner)
         return
     if not isinstance(other, SLRef):
         raise Undecided("extend with a non-symbolic list")
